@@ -218,6 +218,123 @@ theorem reward_saturates {db : Db} {s s' : JState} {spec : Nat} {e : FeeEnv} {sp
   rw [b, upd_same]; unfold U256.saturatingAdd; rw [if_neg (by omega)]
 
 
+/-! ## nothing but the named accounts is touched -/
+
+theorem transfer_others {db : Db} {s s' : JState} {src dst : Addr} {v : Nat} {r : Option TransferErr}
+    (hok : BalOk db s) (h : transfer db s src dst v = some (s', r)) {x : Addr} (h1 : x ≠ src) (h2 : x ≠ dst) :
+    bal db s' x = bal db s x := by
+  rw [bal_of_absB (transfer_refines hok h).1]
+  unfold bTransfer
+  split
+  · rfl
+  · simp only []
+    split
+    · rfl
+    · show upd _ dst _ x = _
+      rw [upd_other _ _ h2, upd_other _ _ h1]; rfl
+
+theorem create_others {db : Db} {s s' : JState} {caller a : Addr} {hs : Bool} {v spec : Nat}
+    {r : Except CreateErr Checkpoint} (h : createAccountCheckpoint s caller a hs v spec = some (s', r))
+    {x : Addr} (h1 : x ≠ caller) (h2 : x ≠ a) : bal db s' x = bal db s x := by
+  obtain ⟨k1, k2, _⟩ := create_refines (db := db) h
+  cases r with
+  | ok cp =>
+    rw [bal_of_absB (k1 rfl).2]
+    show upd _ caller _ x = _
+    rw [upd_other _ _ h1, upd_other _ _ h2]; rfl
+  | error er => rw [bal_of_absB (k2 (by cases er <;> simp [createOutcome]))]; rfl
+
+theorem selfdestruct_others {db : Db} {s s' : JState} {a t : Addr} {res : Bool × Bool × Bool × Bool}
+    (h : selfdestruct db s a t = some (s', res)) {x : Addr} (h1 : x ≠ a) (h2 : x ≠ t) :
+    bal db s' x = bal db s x := by
+  obtain ⟨prev, e⟩ := selfdestruct_refines (db := db) h
+  rw [bal_of_absB e]
+  unfold bSelfdestruct
+  by_cases hat : a = t
+  · subst hat
+    simp only [ne_eq, not_true_eq_false, if_false]
+    split
+    · show upd _ a 0 x = _
+      rw [upd_other _ _ h1]; rfl
+    · rfl
+  · simp only [ne_eq, hat, not_false_eq_true, if_true]
+    split
+    · show upd _ a 0 x = _
+      rw [upd_other _ _ h1, upd_other _ _ h2]; rfl
+    · show upd _ a 0 x = _
+      rw [upd_other _ _ h1, upd_other _ _ h2]; rfl
+
+/-! ## an operation followed by the undo of its own entries restores every balance -/
+
+theorem bTransfer_suffix (f : Addr → Nat) (j : List Entry) (src dst v : Nat) :
+    (bTransfer ⟨f, j⟩ src dst v).1 = ⟨(bTransfer ⟨f, []⟩ src dst v).1.f, (bTransfer ⟨f, []⟩ src dst v).1.j ++ j⟩ := by
+  unfold bTransfer
+  simp only []
+  split
+  · rfl
+  · split <;> rfl
+
+theorem bSelfdestruct_suffix (f : Addr → Nat) (j : List Entry) (a t : Addr) (c k p : Bool) :
+    bSelfdestruct ⟨f, j⟩ a t c k p = ⟨(bSelfdestruct ⟨f, []⟩ a t c k p).f, (bSelfdestruct ⟨f, []⟩ a t c k p).j ++ j⟩ := by
+  unfold bSelfdestruct
+  simp only []
+  split
+  · rfl
+  · split <;> rfl
+
+theorem bCreateOk_suffix (f : Addr → Nat) (j : List Entry) (caller a v : Nat) :
+    bCreateOk ⟨f, j⟩ caller a v = ⟨(bCreateOk ⟨f, []⟩ caller a v).f, (bCreateOk ⟨f, []⟩ caller a v).j ++ j⟩ := rfl
+
+theorem binv_fresh' {L : List Addr} {f : Addr → Nat} (hf : FOk f) : BInv L f ⟨f, []⟩ where
+  ok := hf
+  ein := fun e he => by cases he
+  vok := fun e he => by cases he
+  good := trivial
+  base := rfl
+
+/-- DESIGN A.1 (b), projected to balances: the balance entries an operation pushes undo exactly what
+it did to every balance -/
+theorem step_undo_restores {db : Db} {r r' : Run} {op : Op} (hok : BalOk db r.js)
+    (hloc : StepOk db r op) (h : step db r op = some r') (hnr : ∀ i, op ≠ .revert i) :
+    ∃ new, JB r'.js = new ++ JB r.js ∧ undoAll (bal db r'.js) new = bal db r.js := by
+  by_cases hop : isEtherOp op = false
+  · have e := non_ether_step (db := db) hop h
+    exact ⟨[], by rw [e.2]; rfl, by rw [e.1]; rfl⟩
+  · cases op <;> (first | (exact absurd rfl hop) | skip)
+    case transfer src dst v =>
+      simp only [step, Option.map_eq_some_iff] at h
+      obtain ⟨⟨s1, res⟩, h1, rfl⟩ := h
+      have e := (transfer_refines hok h1).1
+      have hi := bTransfer_inv (L := [src, dst]) (binv_fresh' hok) (src := src) (dst := dst) v (by simp) (by simp)
+      rw [show absB db r.js = ⟨bal db r.js, JB r.js⟩ from rfl, bTransfer_suffix] at e
+      exact ⟨_, congrArg BState.j e, by rw [bal_of_absB e]; exact hi.base⟩
+    case selfdestruct a t =>
+      simp only [step, Option.map_eq_some_iff] at h
+      obtain ⟨⟨s1, res⟩, h1, rfl⟩ := h
+      obtain ⟨prev, e⟩ := selfdestruct_refines (db := db) h1
+      have hi := bSelfdestruct_inv (L := [a, t]) (binv_fresh' hok) (a := a) (t := t) (crt r.js a)
+        (decide (r.js.spec ≥ CANCUN)) prev (by simp) (by simp) hloc
+      rw [show absB db r.js = ⟨bal db r.js, JB r.js⟩ from rfl, bSelfdestruct_suffix] at e
+      exact ⟨_, congrArg BState.j e, by rw [bal_of_absB e]; exact hi.base⟩
+    case create caller a hs v spec =>
+      simp only [step] at h
+      split at h
+      · rename_i js cp h1
+        cases h
+        obtain ⟨k1, _, _⟩ := create_refines (db := db) h1
+        obtain ⟨hlt, e⟩ := k1 rfl
+        have hi := bCreateOk_inv (L := [caller, a]) (binv_fresh' hok) (caller := caller) (a := a) (v := v)
+          (by simp) (by simp) hlt (Or.inr hloc)
+        rw [show absB db r.js = ⟨bal db r.js, JB r.js⟩ from rfl, bCreateOk_suffix] at e
+        exact ⟨_, congrArg BState.j e, by rw [bal_of_absB e]; exact hi.base⟩
+      · rename_i js er h1
+        cases h
+        obtain ⟨_, k2, _⟩ := create_refines (db := db) h1
+        have e := k2 (by cases er <;> simp [createOutcome])
+        exact ⟨[], congrArg BState.j e, congrArg BState.f e⟩
+      · cases h
+    case revert i => exact absurd rfl (hnr i)
+
 /-! ## parts 1 and 2 together -/
 
 /-- `deduct_caller`, then ANY history of journal operations (the execution: calls, creations,
